@@ -209,10 +209,10 @@ fn lerps(d: &mut Drv) {
 fn sq(x: Q) -> Q { x * x }
 fn one_minus(x: Q) -> Q { Q::int(1) - x }
 
-fn transitions(d: &mut Drv) {
+fn transitions(d: &mut Drv, neg_progress: bool) {
     let s: Vec<Q> = (0..3).map(|_| Q::int(d.rng.gen_range(-5..=5))).collect();
     let e: Vec<Q> = (0..3).map(|_| Q::int(d.rng.gen_range(-5..=5))).collect();
-    let p = Q::frac(d.rng.gen_range(-2..=6), 4);
+    let p = if neg_progress { Q::frac(-d.rng.gen_range(1..=3), 4) } else { Q::frac(d.rng.gen_range(-2..=6), 4) };
     let (vs, ve) = (Vec3::new(s[0], s[1], s[2]), Vec3::new(e[0], e[1], e[2]));
     let o = |v: Vec3<Q>| evs(&[v.x, v.y, v.z]);
     macro_rules! accessors {
@@ -249,7 +249,7 @@ pub fn drive_lerp(args: &[String]) {
     let seed: u64 = arg_or(args, "--seed", "1").parse().unwrap();
     let mut d = Drv::new(&arg(args, "--out").expect("--out"), seed);
     set_pair_mode(true);
-    for _ in 0..n { lerps(&mut d); transitions(&mut d); }
+    for _ in 0..n { lerps(&mut d); transitions(&mut d, true); transitions(&mut d, false); transitions(&mut d, false); }
     d.finish(arg(args, "--summary"));
 }
 
@@ -286,10 +286,13 @@ fn slerp_setup(d: &mut Drv) -> (Vec<Q>, Vec<Q>, u8, i64, Vec<Q>) {
     let fr = rot_of_quat(&unitquat(&mut d.rng, 1));
     let axis: Vec<Q> = (0..3).map(|i| fr[i][0]).collect();
     let b = d.rng.gen_range(0..2u8);
-    let m: i64 = if d.pick(8) == 0 { 0 } else if b == 0 { d.rng.gen_range(1..=4) } else { d.rng.gen_range(1..=6) };
+    let m: i64 = if d.pick(6) == 0 { 0 } else if b == 0 { d.rng.gen_range(1..=4) } else { d.rng.gen_range(1..=6) };
     let (c, s) = Q::angle(b, m).cos_sin();
     let r = Quaternion::from_xyzw(axis[0] * s, axis[1] * s, axis[2] * s, c);
     let to = mkq(&from) * r;
+    // the same rotation is also denoted by the negated quaternion
+    let neg = d.pick(3) == 0;
+    let to = if neg { -to } else { to };
     (from, axis, b + 1, m, vec![to.x, to.y, to.z, to.w])
 }
 fn obtuse(b: u8, m: i64) -> bool { Q::angle(b - 1, m).cos_sin().0 < Q::int(0) }
@@ -331,6 +334,7 @@ pub fn drive_slerp(args: &[String]) {
     let n: usize = arg_or(args, "--n", "30").parse().unwrap();
     let seed: u64 = arg_or(args, "--seed", "1").parse().unwrap();
     let mut d = Drv::new(&arg(args, "--out").expect("--out"), seed);
+    crate::q::set_strict_div(true);
     for _ in 0..n { nlerps(&mut d); slerps(&mut d); }
     d.finish(arg(args, "--summary"));
 }
